@@ -1,2 +1,2 @@
-(import (scheme base) (scheme write) (scheme char) (chibi ast) (chibi weak) (chibi disasm) (chibi heap-stats) (chibi crypto sha2) (chibi crypto md5) (srfi 27) (chibi time) (chibi filesystem) (chibi io) (chibi system) (except (scheme bytevector) bytevector-copy!) (srfi 144) (srfi 160 base) (chibi optimize rest) (scheme repl) (srfi 95) (chibi string) (only (chibi) call-with-output-string string-cursor->index make-syntactic-closure strip-syntactic-closures identifier? identifier->symbol))
+(import (scheme base) (scheme write) (chibi crypto sha2) (srfi 27) (chibi time) (chibi filesystem) (chibi io) (chibi system) (except (scheme bytevector) bytevector-copy!) (srfi 144) (srfi 160 base) (chibi string) (only (chibi) string-cursor->index))
 (define (show x) (write x) (newline))
